@@ -502,7 +502,9 @@ class CompilerProcess:
                 rec["paths"] = [p.rsplit("/", 1)[-1] for p in paths]
             return rec
         if kind == "cli":
-            budget = min(MAX_BUDGET, self.budget_parse() + 25_000_000)
+            # (parse + lint + render of the most expensive accepted input met -- ~470 nesting
+            # levels, just below the recursion limit -- is ~30 M steps: 2x headroom)
+            budget = min(MAX_BUDGET, self.budget_parse() + 60_000_000)
             main = self.mod("bitproto._main")
             rec, ret = self.system_op(i, op, lambda: main.run_bitproto(), budget, argv=["bitproto"] + list(op["argv"]))
             if rec["outcome"] == "ok" and ret not in (None, 0):
